@@ -82,6 +82,13 @@ def run(ck):
     ck.floor('C35.main', 'main functions (eph, relay)', len(mains), 2)
     oblige('C35.main', 'C35.main/escape', 'main', 'nothing but start-up resource failures escapes main()', mains[0].loc())
 
+    # ---- periodic entry driven by the daemon's main loop ----------------------------------------------
+    tq = 'ephemeralnet::Node::tick'
+    if tq not in P.by_q:
+        raise AnalysisBroken('Node::tick not found')
+    oblige('C35.tick', 'C35.tick/Node::tick', tq, 'no exception leaves Node::tick (it runs on the daemon main loop and replays state learned from '
+           'remote peers: pending fetches, announces, endpoints)', P.by_q[tq][0].loc())
+
     # ---- recursion reachable from thread entries -----------------------------------------------------
     edges = {}
     for f in P.fns:
